@@ -75,6 +75,8 @@ pub struct FaultPlan {
 thread_local! {
     /// storage operations of this thread are not logged (read-back by the harness itself)
     pub static THREAD_QUIET: std::cell::Cell<bool> = const { std::cell::Cell::new(false) };
+    /// injected faults that fired on this thread
+    pub static THREAD_FAULTS: std::cell::Cell<u64> = const { std::cell::Cell::new(0) };
 }
 /// run `f` with the calling thread's storage operations unlogged
 pub fn quietly<T>(f: impl FnOnce() -> T) -> T {
@@ -246,6 +248,7 @@ impl SimDir {
             // transient: exactly the k-th operation (if it was filtered out, the next eligible)
         }
         g.faults_fired += 1;
+        THREAD_FAULTS.with(|c| c.set(c.get() + 1));
         true
     }
 
